@@ -81,7 +81,12 @@ where
                                 let removed_leaf_index = remove_proposal.removed();
                                 let is_self_remove = *sender_leaf_index == removed_leaf_index;
 
-                                if is_self_remove && receiver_is_admin {
+                                // An admin that already has a commit of its own pending cannot create
+                                // another one: it keeps the proposal pending like any other receiver
+                                // (attempting the auto-commit stored the proposal and then failed).
+                                let can_commit_now = mls_group.pending_commit().is_none();
+
+                                if is_self_remove && receiver_is_admin && can_commit_now {
                                     // Self-remove proposal + admin receiver: auto-commit
                                     self.auto_commit_proposal(
                                         mls_group,
